@@ -820,8 +820,8 @@ class Engine(object):
         return c
 
     def snapshot_list(self, v):
-        if isinstance(v.val, SSeq):
-            return PList(v.val)
+        if isinstance(v.val, (SSeq, FoldAbs)):
+            return PList(v.val)          # immutable abstractions: a mutation replaces .val
         return PList([self.snapshot_list(x) if isinstance(x, PList) else x for x in v.val])
 
     def check_raise(self, exc, frame):
@@ -1676,6 +1676,8 @@ class Engine(object):
         if isinstance(a, PList) or isinstance(b, PList) or isinstance(a, SSeq) or isinstance(b, SSeq):
             if isinstance(op, ast.Add):
                 return self.seq_concat(a, b)
+            if isinstance(op, ast.Mult) and isinstance(a, PList) and isinstance(a.val, list) and isinstance(b, int) and not isinstance(b, bool):
+                return PList(list(a.val) * b)        # the same element objects, repeated (as in Python)
             raise Unsupported('list operator %s' % type(op).__name__)
         if not is_sym(a) and not is_sym(b):
             return self.concrete_binop(op, a, b)
